@@ -3,6 +3,12 @@
 import json, os
 
 CLAIMED = {
+    "C19": ("Coq proof over Tuner.v (search loop on the lifecycle core, scripted run_trial): log well-formedness, resume theorem, termination bound + differential correspondence with BaseTuner.search",
+            "C19_search_log: for every oracle (populate), script and configuration the event log of the loop satisfies check_log (each RUNNING response -> run_trial -> exactly one end_trial with COMPLETED / INVALID / "
+            "FAILED mapped from returned / ordinary exception / FailedTrialError; fatal errors and interruptions propagate with no end_trial; IDLE -> ask again; STOPPED -> leave). C19_resume: after an interruption the reloaded "
+            "oracle re-issues the interrupted trial first with its id and stored values, consuming no budget. C19_search_terminates: at most (max_retries+1)*max_trials runs. Tie: sessions of the real BaseTuner.search "
+            "(first / resume / overwrite) with scripted run_trial on the four real oracles; event logs and end-of-session bookkeeping compared with the model.",
+            "Trusted: Coq kernel/vm_compute; python harness; run_trial is a script; populate_space as recorded table; interruption = KeyboardInterrupt in run_trial; single worker.", "DESIGN.md section 6 C19"),
     "C04": ("Coq proof over Best.v (stable sort model of get_best_trials) and HBSym.v + differential correspondence + two-run symmetry monitor",
             "C04_completed_first / C04_sorted / C04_left_out / C04_length: for every trial multiset, direction and n the result is the n best COMPLETED trials in the objective's order with no "
             "non-completed trial ahead of a completed one; C04_ranking_symmetric: maximising s ranks exactly like minimising -s, ties included; C04_hyperband_symmetric: Hyperband's promotion "
